@@ -182,3 +182,31 @@ def strace_write_access(log_text, protected_paths):
         if m and any(n in m.group(2) for n in names):
             bad.append(line.strip())
     return bad, opens
+
+
+def strace_collateral_paths(log_text, directory, allowed):
+    """Paths below `directory` that the traced process created, opened for writing, renamed or removed, other than the `allowed` ones (the
+    output it was asked to write): files of its own invention, whose names a caller's file may happen to have."""
+    droot = os.path.realpath(directory) + os.sep
+    ok = set(os.path.realpath(p) for p in allowed)
+    out = []
+
+    def note(path):
+        try:
+            path = path.encode('latin-1').decode('unicode_escape').encode('latin-1').decode('utf-8', 'replace')
+        except Exception:
+            pass
+        rp = os.path.realpath(path if os.path.isabs(path) else os.path.join(directory, path))
+        if rp.startswith(droot) and rp not in ok and rp not in out and '__pycache__' not in rp:
+            out.append(rp)
+    for line in log_text.splitlines():
+        m = OPENAT.search(line)
+        if m:
+            if int(m.group(3)) >= 0 and any(f in m.group(2).split('|') for f in ('O_WRONLY', 'O_RDWR', 'O_TRUNC', 'O_APPEND', 'O_CREAT')):
+                note(m.group(1))
+            continue
+        m = OTHER.search(line)
+        if m and int(m.group(3)) >= 0:
+            for q in re.findall(r'"((?:[^"\\]|\\.)*)"', m.group(2)):
+                note(q)
+    return out
